@@ -260,21 +260,302 @@ def os_join(*a):
     return os.path.join(*a)
 
 
-STREAMS = [FlowMgrStream()]
 
-META = {
-    "level_text": (
-        "Coq theorems over Model/Flow.v for every history of get_flow(new|given)/cli_to_flow_nums/flush/clean restart "
-        "(load_from_db with any selection): a number returned for a NEW flow was never returned or recorded before "
-        "(state invariant: every recorded number is <= counter or a key of .flows; recorded numbers only grow; every "
-        "returned number is recorded), the skip loop terminates within the fuel the model gives it, and list-level "
-        "lemmas for the flow-set union used when flows merge (result is exactly the union, hence a superset of the "
-        "parent's flows). The model is tied to the real FlowMgr + sqlite table by differential histories compared in Coq."),
-    "level_note": (
-        "Hand model; the FlowMgr part of C08 only: spawn_on_output/merge_flows and 'no re-run of a complete task in a "
-        "flow' are scheduler-level (other stream / C02). Restarts are clean; uniqueness across a crash is C20. "
-        "Restart on an empty workflow_flows table leaves counter=None (next --flow=new raises TypeError): modelled, "
-        "excluded from the theorem by hypothesis. Trusted: Coq kernel+VM, harness, sqlite."),
-    "technique": "Coq proof (state invariant by induction over histories) + in-Coq differential correspondence on a real DB + freshness oracle",
-    "design_ref": "5/C08",
-}
+# ===========================================================================
+# scheduler level: `cylc set --flow=F --out=O <task>` on the real Scheduler
+# (shared in-process driver vp/sched/driver.py, wrapped from outside)
+# ===========================================================================
+import json
+import random
+
+from vp.sched import scen
+from vp.sched.stream import SchedStream
+
+_FC = {"set": 0, "soo": [], "merge": 0, "objs": []}
+_FC_INSTALLED = [False]
+
+KEEP_FC = {"fc_set_begin", "fc_set_end", "fc_cli", "fc_active", "fc_out_begin", "fc_out_end", "fc_effect",
+           "fc_skip_transient", "op", "op_rejected", "output", "spawn", "spawn_none", "merge"}
+
+
+def _fc_install():
+    """EXTRA_PATCHES hook: wrap (on top of the driver's own wrappers) the methods on the command path."""
+    if _FC_INSTALLED[0]:
+        return
+    _FC_INSTALLED[0] = True
+    from vp.sched import driver as D
+    from cylc.flow.task_pool import TaskPool
+    from cylc.flow.flow_mgr import FlowMgr
+
+    def pool_flows(pool):
+        return sorted([D.tid(t), sorted(t.flow_nums)] for m in pool.active_tasks.values() for t in m.values())
+
+    o_set = TaskPool.set_prereqs_and_outputs
+
+    def n_set(self, items, outputs, prereqs, flow, flow_wait=False, flow_descr=None):
+        fm = self.flow_mgr
+        D.ev("fc_set_begin", targets=sorted([str(i["cycle"]), str(i["task"])] for i in items),
+             outputs=list(outputs), prereqs=list(prereqs), flow=list(flow), flow_wait=bool(flow_wait),
+             pool=pool_flows(self), counter=fm.counter, flowkeys=sorted(fm.flows))
+        _FC["set"] += 1
+        _FC["objs"] = []
+        try:
+            return o_set(self, items, outputs, prereqs, flow, flow_wait, flow_descr)
+        finally:
+            _FC["set"] -= 1
+            D.ev("fc_set_end", counter=fm.counter, pool=pool_flows(self),
+                 objs=[[D.tid(t), id(t), sorted(t.flow_nums)] for t in _FC["objs"]])
+    TaskPool.set_prereqs_and_outputs = n_set
+
+    o_cli = FlowMgr.cli_to_flow_nums
+
+    def n_cli(self, flow, meta=None):
+        r = o_cli(self, flow, meta)
+        if _FC["set"]:
+            D.ev("fc_cli", flow=list(flow), res=sorted(r))
+        return r
+    FlowMgr.cli_to_flow_nums = n_cli
+
+    o_act = TaskPool._get_active_flow_nums
+
+    def n_act(self):
+        r = o_act(self)
+        if _FC["set"]:
+            D.ev("fc_active", res=sorted(r))
+        return r
+    TaskPool._get_active_flow_nums = n_act
+
+    o_out = TaskPool._set_outputs_itask
+
+    def n_out(self, itask, outputs):
+        if _FC["set"]:
+            _FC["objs"].append(itask)
+            D.ev("fc_out_begin", id=D.tid(itask), obj=id(itask), transient=bool(itask.transient),
+                 flows=sorted(itask.flow_nums), flow_wait=bool(itask.flow_wait))
+        try:
+            return o_out(self, itask, outputs)
+        finally:
+            if _FC["set"]:
+                D.ev("fc_out_end", id=D.tid(itask), obj=id(itask), flows=sorted(itask.flow_nums))
+    TaskPool._set_outputs_itask = n_out
+
+    o_soo = TaskPool.spawn_on_output
+
+    def n_soo(self, itask, output, *a, **k):
+        _FC["soo"].append(id(itask))
+        try:
+            return o_soo(self, itask, output, *a, **k)
+        finally:
+            _FC["soo"].pop()
+    TaskPool.spawn_on_output = n_soo
+
+    o_mf = TaskPool.merge_flows
+
+    def n_mf(self, itask, flow_nums):
+        before, arg = sorted(itask.flow_nums), sorted(flow_nums)
+        nested = _FC["merge"] > 0
+        parent = _FC["soo"][-1] if _FC["soo"] else None
+        _FC["merge"] += 1
+        try:
+            return o_mf(self, itask, flow_nums)
+        finally:
+            _FC["merge"] -= 1
+            if _FC["set"]:
+                D.ev("fc_effect", kind="merge", id=D.tid(itask), obj=id(itask), before=before, arg=arg,
+                     after=sorted(itask.flow_nums), parent=parent, nested=nested)
+    TaskPool.merge_flows = n_mf
+
+    o_sp = TaskPool.spawn_task
+
+    def n_sp(self, name, point, flow_nums, flow_wait=False):
+        arg = sorted(flow_nums)
+        nested = _FC["merge"] > 0
+        parent = _FC["soo"][-1] if _FC["soo"] else None
+        r = o_sp(self, name, point, flow_nums, flow_wait)
+        if _FC["set"]:
+            D.ev("fc_effect", kind="spawn", id=[int(str(point)), name], obj=None if r is None else id(r),
+                 before=None, arg=arg, after=None if r is None else sorted(r.flow_nums), parent=parent, nested=nested)
+        return r
+    TaskPool.spawn_task = n_sp
+
+
+def _fc_commands(trace):
+    """The `set` commands of a run (outputs branch, one exact target): dicts with everything the model / oracle need."""
+    out = []
+    cur = None
+    for e in trace:
+        k = e["e"]
+        if k == "fc_set_begin":
+            cur = {"begin": e, "cli": None, "active": None, "outs": [], "effects": [], "outputs": [], "end": None}
+        elif cur is None:
+            continue
+        elif k == "fc_cli":
+            cur["cli"] = e
+        elif k == "fc_active":
+            cur["active"] = e
+        elif k == "fc_out_begin":
+            cur["outs"].append({"begin": e, "end": None})
+        elif k == "fc_out_end":
+            for o in cur["outs"]:
+                if o["begin"]["obj"] == e["obj"]:
+                    o["end"] = e
+        elif k == "fc_effect":
+            cur["effects"].append(e)
+        elif k == "output" and cur["outs"] and cur["outs"][-1]["end"] is None:
+            cur["outputs"].append(e)
+        elif k == "fc_set_end":
+            cur["end"] = e
+            out.append(cur)
+            cur = None
+    return out
+
+
+def _fc_view(cmd):
+    """None if the command is outside the modelled fragment, else the flat view."""
+    b = cmd["begin"]
+    if b["prereqs"] or len(b["targets"]) != 1 or cmd["end"] is None or cmd["cli"] is None:
+        return None
+    cyc, name = b["targets"][0]
+    if not cyc.isdigit() or any(ch in name for ch in "*?["):
+        return None
+    tgt = [int(cyc), name]
+    pool = {tuple(i): fl for i, fl in b["pool"]}
+    pooled = tuple(tgt) in pool
+    outs = [o for o in cmd["outs"] if o["begin"]["id"] == tgt]
+    if len(outs) > 1:
+        return None
+    ob = outs[0] if outs else None
+    if ob is not None and ob["begin"]["transient"] == pooled:
+        return None
+    effects = []
+    if ob is not None:
+        effects = [e for e in cmd["effects"] if e["parent"] == ob["begin"]["obj"] and not e["nested"]
+                   and not (e["kind"] == "merge" and e["id"] == tgt)]
+    if ob is not None:
+        after = [fl for i, o_, fl in cmd["end"]["objs"] if o_ == ob["begin"]["obj"]][0]
+    else:
+        after = dict((tuple(i), fl) for i, fl in cmd["end"]["pool"]).get(tuple(tgt), pool.get(tuple(tgt), []))
+    return {"target": tgt, "pooled": pooled, "old": pool.get(tuple(tgt), []), "flow": b["flow"],
+            "pool": [fl for _i, fl in b["pool"]], "fallback": cmd["active"]["res"] if cmd["active"] else [],
+            "counter": b["counter"], "flowkeys": b["flowkeys"], "counter_after": cmd["end"]["counter"],
+            "ran": ob is not None, "entry_flows": ob["begin"]["flows"] if ob else None,
+            "flow_wait": ob["begin"]["flow_wait"] if ob else False,
+            "after": after, "effects": effects, "resolved": cmd["cli"]["res"],
+            "outputs": sorted({o for e in cmd["outputs"] if e.get("id") == tgt for o in e["out"]})}
+
+
+class FlowCmdStream(SchedStream):
+    """`cylc set --flow=new|N|none|(default) --out=... <task>` on pooled and inactive tasks of generated workflows."""
+    coq_import = "From Cylc Require Import Model.FlowCmd."
+    check_fn = "FlowCmd.check_case"
+    show_fn = "FlowCmd.model_out"
+    shard_size = 40
+
+    def __init__(self, n_quick=20, n_thorough=400):
+        super().__init__("C08", name="flowcmd", feat={"disorder": False, "max_tasks": 4, "max_fcp": 3},
+                         n_quick=n_quick, n_thorough=n_thorough)
+        self.cache_key = "sched-flowcmd:v1"
+        self.rule = ("generated integer-cycling workflows (2-4 tasks, AND/OR triggers, offsets, custom outputs) run on the "
+                     "real Scheduler in-process; 2-4 `cylc set` commands per run (real commands.set_prereqs_and_outputs through "
+                     "the command queue) at main-loop iterations 0..6 on one exact task instance (pooled or not at that "
+                     "moment), --flow drawn from default/new/none/1/2/1,2/3, --out from default/succeeded/started/submitted/"
+                     "failed/custom; jobs of some tasks slowed so that targets are still active; every command is one Coq case; "
+                     "non-trivial = a command whose outputs had at least one child effect (merge into a pooled child or spawn) "
+                     "and whose --flow was not the default")
+
+    # -- generator ---------------------------------------------------------
+    def corpus(self):
+        atom = lambda t: {"task": t, "off": 0, "out": "succeeded"}  # noqa
+        base = {"icp": 1, "fcp": 1, "tasks": ["a", "b", "c", "d"],
+                "sections": [{"rec": "R1", "lines": [
+                    {"lhs": None, "rhs": "a"}, {"lhs": None, "rhs": "b"}, {"lhs": None, "rhs": "c"}, {"lhs": None, "rhs": "d"},
+                    {"lhs": {"op": "and", "args": [atom("a"), atom("b")]}, "rhs": "c"}, {"lhs": atom("b"), "rhs": "d"}]}],
+                "customs": {}, "opt": [[t, "succeeded", False] for t in "abcd"], "runahead": 1, "queues": {}, "seed": 7,
+                "fail_rate": 0.0, "custom_rate": 1.0, "disorder": 0.0, "slow": {"a": 8, "b": 8, "c": 0, "d": 0},
+                "max_ticks": 40, "ops": []}
+        # the seeded regression's scenario (seeded/C08/demo2.py): a & b => c, b => d;
+        # set --out=succeeded 1/a ; set --flow=new --out=succeeded 1/b : c must merge to {1,2}, d spawn with {1,2}
+        c1 = json.loads(json.dumps(base))
+        c1["ops"] = [
+            {"tick": 0, "cmd": "set", "args": {"tasks": ["1/a"], "flow": ["all"], "outputs": ["succeeded"], "prerequisites": None}},
+            {"tick": 0, "cmd": "set", "args": {"tasks": ["1/b"], "flow": ["new"], "outputs": ["succeeded"], "prerequisites": None}}]
+        # the same with an explicit new number, and --flow=none on an inactive task
+        c2 = json.loads(json.dumps(base))
+        c2["ops"] = [
+            {"tick": 1, "cmd": "set", "args": {"tasks": ["1/a"], "flow": ["2"], "outputs": ["succeeded"], "prerequisites": None}},
+            {"tick": 2, "cmd": "set", "args": {"tasks": ["1/b"], "flow": ["3"], "outputs": None, "prerequisites": None}},
+            {"tick": 3, "cmd": "set", "args": {"tasks": ["1/d"], "flow": ["none"], "outputs": ["succeeded"], "prerequisites": None}},
+            {"tick": 4, "cmd": "set", "args": {"tasks": ["1/b"], "flow": ["new"], "outputs": ["succeeded"], "prerequisites": None}}]
+        return [c1, c2]
+
+    def _cases(self, r, n):
+        out = []
+        while len(out) < n:
+            s = scen.gen_scenario(r, self.feat)
+            s.pop("baseline", None)
+            s["ops"] = []
+            s["max_ticks"] = 45
+            # slow some jobs down so that commands find their targets still active
+            s["slow"] = {t: r.choice([0, 3, 6, 9]) for t in s["tasks"]}
+            g = scen.instance_graph(s)["inst"]
+            ids = sorted(g)
+            if not ids:
+                continue
+            # prefer targets whose outputs have children
+            par = [i for i in ids if g[i]["children"]] or ids
+            for _ in range(r.randint(2, 4)):
+                pnt, t = r.choice(par) if r.random() < 0.8 else r.choice(ids)
+                flow = r.choice([["all"], ["new"], ["new"], ["new"], ["none"], ["1"], ["2"], ["2"], ["1", "2"], ["3"]])
+                x = r.random()
+                if x < 0.3:
+                    outs = None
+                elif x < 0.75:
+                    outs = ["succeeded"]
+                else:
+                    outs = r.sample(["succeeded", "started", "submitted", "failed"] + s["customs"].get(t, []), r.randint(1, 2))
+                    if "succeeded" in outs and "failed" in outs:
+                        outs.remove("failed")
+                s["ops"].append({"tick": r.randint(0, 6), "cmd": "set",
+                                 "args": {"tasks": [f"{pnt}/{t}"], "flow": flow, "outputs": outs, "prerequisites": None}})
+            s["ops"].sort(key=lambda o: o["tick"])
+            out.append(s)
+        return out
+
+    def gen(self, rng, tier):
+        return self._cases(random.Random(rng.randrange(1 << 30)), self.n_quick if tier == "quick" else self.n_thorough)
+
+    def search(self, rng, tier):
+        return self._cases(random.Random(rng.randrange(1 << 30)), 3 * self.n_quick)
+
+    # -- driver --------------------------------------------------------------
+    def impl(self, cases):
+        import os
+        from pathlib import Path
+        from vp.sched import driver
+        if _fc_install not in driver.EXTRA_PATCHES:
+            driver.EXTRA_PATCHES.append(_fc_install)
+        home = Path(os.environ["HOME"])
+        out = []
+        for c in cases:
+            for _attempt in range(3):
+                _FC.update({"set": 0, "soo": [], "merge": 0, "objs": []})
+                r = driver.run_many([c], home)[0]
+                if not r["meta"].get("error"):
+                    break
+            if r["meta"].get("error") and "BrokenBarrierError" in str(r["meta"]["error"]):
+                r["meta"]["flaky"] = True
+            r["trace"] = [e for e in r["trace"] if e["e"] in KEEP_FC]
+            out.append(r)
+        return out
+
+    # -- Coq cases: one record per command; a run's commands are checked together -------------
+    def coq_case(self, c, r):
+        # (check_fn takes ONE case; a run has several commands: they are emitted as separate terms by
+        #  coq_cases below; the framework calls coq_case once per run, so fold them with a conjunction helper)
+        raise NotImplementedError
+
+    def oracle(self, c, r):
+        raise NotImplementedError
+
+
+STREAMS = [FlowMgrStream()]
